@@ -147,6 +147,16 @@ func VerifyFunction(ld *Loaded, cs *ContractSet, fn *ssa.Function, ct *Contract)
 	for _, r := range ct.Requires {
 		ex.sc.Assert(ex.evalBool(r, env0))
 	}
+	if ct.Sweep && fn.Signature.Recv() != nil && len(fn.Params) > 0 {
+		// sweeps take the method as called on an existing object; nil receivers
+		// are checked where a caller under verification inlines the method
+		if _, isPtr := fn.Params[0].Type().Underlying().(*types.Pointer); isPtr {
+			if sv, ok := fr.regs[fn.Params[0]].(SV); ok {
+				ex.sc.Assert(Not(Eq(sv.T, IntLit(0))))
+				ex.assumedUsed["sweep: receiver of "+key+" is not nil"] = true
+			}
+		}
+	}
 	fr.entry = st.clone()
 	fr.blockPC = tTrue
 	ex.stack = []*ssa.Function{fn}
@@ -211,6 +221,7 @@ func VerifyFunction(ld *Loaded, cs *ContractSet, fn *ssa.Function, ct *Contract)
 		if ct.AssignsSet {
 			ex.checkAssigns(fr, ct, final, pcRet)
 		}
+		ex.checkInvAllocs(fr, final, pcRet, 0, "return")
 		// reachability cover: the exit must be reachable under the assumptions
 		cov := &Obligation{Name: key + "#cover:exit-reachable", Kind: "cover", Fn: key, Props: ct.Props, Goal: tTrue, PC: pcRet, Cover: true, Inputs: ex.inputs}
 		ex.sc.AddObligation(cov)
